@@ -90,6 +90,8 @@ def run(prog, res):
   _pwl_subject(prog, res)
   _kfl_sign(prog, res)
   res.floor('A6', 1)
+  _learned_guard(prog, res)
+  res.floor('A8', 1)
   res.floor('A7', 1)
   # W1: layers forward every kind
   for lq, tq, aliases in LAYERS:
@@ -157,6 +159,55 @@ def _rtl(prog, res):
             'results are collected',
             'RTL.assert_constraints does not assert every lattice layer with '
             'the caller\'s eps')
+
+
+# ---------------------------------------------------------------------------
+def _learned_guard(prog, res):
+  """A8: a weight that build() creates only in some configurations
+  (`self.x = self.add_weight(...)` under guards G) is asserted on in
+  assert_constraints under exactly the guards G: a narrower or different
+  guard leaves a learned weight unchecked in a configuration where it exists
+  (and a wider one asserts on a constant or a missing attribute)."""
+  from ..cfg import structural_guards, canon_guard
+  for cq in ('pwl_calibration_layer.PWLCalibration',):
+    build = prog.function(cq + '.build')
+    asf = prog.function(cq + '.assert_constraints')
+    res.analysed(build, asf)
+    created = {}
+    for st in ast.walk(build.node):
+      if isinstance(st, ast.Assign) and len(st.targets) == 1 and isinstance(
+          st.value, ast.Call) and isinstance(st.value.func, ast.Attribute) \
+          and st.value.func.attr == 'add_weight':
+        a = dotted(st.targets[0])
+        g = structural_guards(build.node, st) or []
+        if a and g:
+          created[a] = {canon_guard(t, p) for t, p in g}
+    for a, gb in sorted(created.items()):
+      sites = [n for n in ast.walk(asf.node)
+               if isinstance(n, ast.Attribute) and dotted(n) == a]
+      if not sites:
+        continue
+      ga = None
+      for n in sites:
+        g = {canon_guard(t, p)
+             for t, p in (structural_guards(asf.node, n) or [])}
+        # split conjunctions into atoms
+        ga = g if ga is None else (ga & g)
+      def atoms(gs):
+        out = set()
+        for text, pol in gs:
+          parts = text.split(' and ') if pol else [text]
+          for part in parts:
+            out.add((part.strip('() '), pol))
+        return out
+      res.check(atoms(ga) == atoms(gb), 'A8', '%s|%s' % (asf.qualname, a),
+                asf.loc(sites[0]),
+                '%s is asserted on under the guards it is created under (%s)'
+                % (a, sorted(atoms(gb))),
+                '%s is a weight created in build() under %s but asserted on '
+                'under %s: in a configuration where the two differ a learned '
+                'weight is never checked (or a constant is)' % (
+                    a, sorted(atoms(gb)), sorted(atoms(ga))))
 
 
 # ---------------------------------------------------------------------------
